@@ -4,7 +4,7 @@ import PkgModel.Version
 
 Mirrors the code path including its string-level detours: `_compare_equal` with `.*` goes through
 `canonicalize_version`, `_version_split`, `_pad_version`; `_compare_compatible` builds its prefix from
-the *raw* spec string.  Exceptions are explicit: `Except String`, the string being the class name of
+the normalised (`canonicalize_version`) spec string.  Exceptions are explicit: `Except String`, the string being the class name of
 the exception that would escape.
 -/
 namespace S
@@ -162,7 +162,8 @@ def compareGE (prospective : Ver) (spec : Str) : R Bool := do
   pure (p.ge s)
 
 def compareCompatible (prospective : Ver) (spec : Str) : R Bool := do
-  let comps := ((versionSplit spec).takeWhile isNotSuffix).dropLast
+  let ns ← canonNoStrip spec
+  let comps := ((versionSplit ns).takeWhile isNotSuffix).dropLast
   let pfx ← match versionJoin comps with
     | some j => pure (j ++ [46, 42])
     | none => .error "ValueError"
@@ -190,9 +191,8 @@ def compareGT (prospective : Ver) (specStr : Str) : R Bool := do
     if c1 then pure false
     else do
       let c2 ← if prospective.localStr.isSome then do
-          let pb ← version prospective.base
-          let sb ← version spec.base
-          pure (pb.eq sb)
+          let pp ← version prospective.public
+          pure (pp.eq spec)
         else pure false
       pure (!c2)
 
@@ -248,11 +248,17 @@ def Spec.filterLoop {α} (sp : Spec) (override pre : Option Bool) :
     else sp.filterLoop override pre rest y f
 
 def Spec.filter {α} (sp : Spec) (override pre : Option Bool) (items : List (α × Ver)) : R (List α) := do
+  -- `if prereleases is None: prereleases = self._prereleases` (an explicit override acts like the argument)
+  let pre := match pre with
+    | some b => some b
+    | none => override
   let (y, f) ← sp.filterLoop override pre items [] []
   if y.isEmpty && !f.isEmpty then pure f else pure y
 
 /-- `_canonical_spec`: the key of `__eq__` / `__hash__` -/
 def Spec.canonical (sp : Spec) : R (Op × Str) := do
+  -- `===`: the text, case-folded (`str.lower`, ASCII here as in `_compare_arbitrary`), nothing else
+  if sp.op == .arbitrary then pure (sp.op, lowerStr sp.ver) else
   match canonicalizeVersion sp.ver (sp.op != .compatible) with
   | some c => pure (sp.op, c)
   | none => .error "InvalidVersion"
